@@ -225,6 +225,9 @@ class ApplyMixin:
                     self.call_function(m, [obj, val], {}, st, fr, target)
                     return
             self.write_attr(obj, target.attr, val, st, fr, target)
+            if obj.pt == "tlocal":
+                darr = self.heap_get(st, "$def:" + target.attr)
+                st.heap["$def:" + target.attr] = z3.Store(darr, self.box(obj), self.voc.B2V(z3.BoolVal(True)))
             return
         if isinstance(target, ast.Subscript):
             cont = self.ev(target.value, st, fr)
@@ -305,7 +308,7 @@ class ApplyMixin:
         for n in names + [x.arg for x in a.kwonlyargs]:
             if n not in env:
                 if n in defaults:
-                    env[n] = self.ev(defaults[n], St(st.guards, st.facts, {}, st.heap), fr)
+                    env[n] = self.ev(defaults[n], St(st.guards, st.facts, {}, st.heap, st.eff, st.epoch), fr)
                 else:
                     raise Untranslatable(f"missing argument {n}")
         return env
@@ -339,11 +342,12 @@ class ApplyMixin:
         sub.writes = fr.writes
         sub.effects = fr.effects
         sub.set_iterations = fr.set_iterations
+        sub.abstracted = fr.abstracted
         # the inlined body may raise what the caller declares
         sub.contract = type("C", (), {"raises": fr.contract.raises if fr.contract else [], "sorts": (fr.contract.sorts if fr.contract else {})})()
         env = self.bind_params(fi.node, args, kwargs, st, fr)
         env = self.apply_param_sorts(fi, env, sub)
-        callee = St(st.guards, st.facts, env, st.heap, st.eff)
+        callee = St(st.guards, st.facts, env, st.heap, st.eff, st.epoch)
         outs = self.exec_block(fi.node.body, callee, sub)
         outs += [o for o in sub.pending]
         sub.pending = []
@@ -406,7 +410,9 @@ class ApplyMixin:
             return outs[0].st, (outs[0].val if outs[0].val is not None else SV(self.voc.NONE, "none"))
         n = len(base.guards)
         conds = [z3.And(o.st.guards[n:]) if len(o.st.guards) > n else z3.BoolVal(True) for o in outs]
-        merged = St(base.guards[:n], [], {}, {}, None)
+        merged = St(base.guards[:n], [], {}, {}, None, outs[0].st.epoch)
+        if any(o.st.epoch != outs[0].st.epoch for o in outs):
+            raise Untranslatable("merging states of different heap epochs")
         merged.guards.append(z3.Or(conds))
         seen = set()
         for o in outs:
@@ -440,7 +446,7 @@ class ApplyMixin:
         for o in outs:
             attrs |= set(o.st.heap)
         for a in attrs:
-            hs = [o.st.heap.get(a, self.heap0(a)) for o in outs]
+            hs = [o.st.heap.get(a, self.heap0(a, o.st.epoch)) for o in outs]
             cur = hs[-1]
             for c, h in zip(reversed(conds[:-1]), reversed(hs[:-1])):
                 cur = z3.If(c, h, cur) if not h.eq(cur) else cur
@@ -467,7 +473,7 @@ class ApplyMixin:
             env = self.apply_param_sorts(fi, env, fr)
         spec_fr = Frame(fi if fi is not None else fr.fi, c, fi.cls if fi is not None else None, kind="spec")
         self.init_frame(spec_fr)
-        pre_st = St(st.guards, st.facts, env, st.heap, st.eff)
+        pre_st = St(st.guards, st.facts, env, st.heap, st.eff, st.epoch)
         # preconditions are obligations of the caller
         n_pre = 0
         for cl in c.requires:
@@ -508,7 +514,7 @@ class ApplyMixin:
                           getattr(node, "lineno", 0), ast.unparse(node)[:100] if node is not None else "", None)
                 st.facts.append(z3.Implies(z3.And(st.guards) if st.guards else z3.BoolVal(True), z3.Not(cond)))
         # havoc what the callee may modify
-        old = St(st.guards, st.facts, env, dict(st.heap), st.eff)
+        old = St(st.guards, st.facts, env, dict(st.heap), st.eff, st.epoch)
         for attr in c.modifies:
             if attr == "*effects":
                 st.eff = self.fresh("eff", z3.IntSort())
@@ -525,8 +531,8 @@ class ApplyMixin:
         result = self.with_sort(res_t, rsort)
         post_env = dict(env)
         post_env["result"] = result
-        post_env["old"] = SV(None, "pyfunc", py=("old", snap))
-        post_st = St(st.guards, st.facts, post_env, st.heap, st.eff)
+        post_env["snap"] = SV(None, "pyfunc", py=("old", snap))
+        post_st = St(st.guards, st.facts, post_env, st.heap, st.eff, st.epoch)
         spec_fr.old_state = old
         for cl in c.ensures:
             g = self.eval_clause(cl, post_st, spec_fr)
@@ -539,7 +545,7 @@ class ApplyMixin:
 
     def heap_epoch(self, st: St):
         """an integer that changes whenever any heap array changed: results of pure calls are functions of it"""
-        key = tuple(sorted((a, h.get_id()) for a, h in st.heap.items() if not h.eq(self.heap0(a))))
+        key = (st.epoch,) + tuple(sorted((a, h.get_id()) for a, h in st.heap.items() if not h.eq(self.heap0(a, st.epoch))))
         tab = self.__dict__.setdefault("_epochs", {})
         if key not in tab:
             tab[key] = len(tab)
@@ -550,7 +556,7 @@ class ApplyMixin:
         return self.truth(sv)
 
     def eval_clause_value(self, cl, st: St, fr: Frame) -> SV:
-        local = St(st.guards, st.facts, dict(st.env), st.heap, st.eff)
+        local = St(st.guards, st.facts, dict(st.env), st.heap, st.eff, st.epoch)
         for let in cl.lets:
             self.assign_place(let.targets[0], self.ev(let.value, local, fr), local, fr)
         r = self.ev(cl.expr, local, fr)
